@@ -75,6 +75,7 @@ const PIECES: &[&str] = &[
     " (esc)", " (no-eol)", "\\", "\\t", "\\x41", "\\x4", "\\\\", "a*b", "a?b", "[", "]", "{", "}",
     "a|b", ".*", "(", ")", " (regex)", " (gl+)", "$ x", "> x", "[1]", "# c", "```", "\u{a0}(glob)",
     "\u{3000}(?)", " (Glob)", " (glob )", " ( glob)", " (glob?*)", " (??)", " (eq?)",
+    "zero\u{200b}width", "soft\u{ad}hyphen", "\u{e0b0} private", "\u{feff}bom", "\u{378}",
 ];
 
 fn expr_strategy() -> BoxedStrategy<String> {
@@ -219,7 +220,8 @@ pub fn check_line(c: &LineCase) -> V {
             Err(p) => return V::fail(format!("to_expression_string crashed for {line:?}: {p}")),
         };
         // root-cause signatures of the print-back defects (see known_findings.json)
-        let unprintable = esc.has_unprintable(&expression);
+        // whether the code under test renders this expression with escape sequences
+        let unprintable = guard(|| esc.has_unprintable(&expression)).unwrap_or(true);
         let classify = |msg: String| -> V {
             if kind != "equal" && kind != "escaped" && unprintable {
                 known_or_fail("printback-nonequal-kind-with-escaped-chars", msg)
@@ -236,11 +238,12 @@ pub fn check_line(c: &LineCase) -> V {
                 known_or_fail("printback-glob-pattern-ending-in-escaped-marker", msg)
             } else if kind == "escaped" && !unprintable && expression.contains(&b'\\') {
                 known_or_fail("printback-escaped-kind-printable-backslash", msg)
-            } else if kind == "equal" && !unprintable && {
-                let (ex, k, q) = r_expect_sep(&text, false);
+            } else if kind == "equal" && {
+                // the plain text of the expectation itself ends in a modifier look-alike and is
+                // printed bare (not in escaped form)
                 let plain = lossy(&expression);
-                // the rendering of the plain text is itself read as carrying another modifier
-                !(ex == plain && k == "equal") || (q.is_empty() != !(e.optional || e.multiline))
+                let (ex, k, q) = r_expect_sep(&plain, false);
+                !(ex == plain && k == "equal" && q.is_empty()) && text.starts_with(&plain)
             } {
                 known_or_fail("printback-equal-text-ending-in-modifier-lookalike", msg)
             } else {
